@@ -96,13 +96,14 @@ def materialise(scn, root):
             os.symlink(data.decode("latin-1"), fp)
         else:
             os.mkfifo(fp)
-    for p, (kind, mode, data) in sorted(scn["tree"].items(), key=lambda kv: -kv[0].count("/")):
-        if kind != "S":
-            os.chmod(os.path.join(work, p), mode)
+    # ownership first: chown(2) clears the set-uid / set-gid bits of a regular file
     for d, ds, fs_ in os.walk(root):
         for n in ds + fs_:
             os.lchown(os.path.join(d, n), NOBODY, NOBODY)
     os.chown(root, NOBODY, NOBODY)
+    for p, (kind, mode, data) in sorted(scn["tree"].items(), key=lambda kv: -kv[0].count("/")):
+        if kind != "S":
+            os.chmod(os.path.join(work, p), mode)
     os.chmod(work, 0o755); os.chmod(tmp, 0o755)
     return work, tmp
 
